@@ -72,6 +72,15 @@ fn jobs(prec: i32) -> Vec<(Op, Vec<Vec<f64>>)> {
     for (op, g) in v.iter_mut() {
         g.extend(un(&range_points(*op, prec)));
     }
+    // product and quotient at large and small magnitudes whose Taylor coefficients (up to 1/b^4) are
+    // still representable: a reformulated rule may overflow or underflow in an intermediate
+    let big: Vec<Vec<f64>> = if prec == 53 {
+        vec![vec![3e59, 1e60], vec![-2e-60, 7e-61], vec![5e29, 3e-30], vec![-1.5e-30, 2e30], vec![0.75, -2.5]]
+    } else {
+        vec![vec![3e7, 1e8], vec![-2e-8, 7e-9], vec![5e5, 3e-6], vec![-1.5e-6, 2e6], vec![0.75, -2.5]]
+    };
+    v.push((Op::Mul, big.clone()));
+    v.push((Op::Div, big));
     v
 }
 
@@ -125,7 +134,7 @@ struct Enumerate<'a> {
 impl<'a> Visitor for Enumerate<'a> {
     fn visit<F: Flt, D: Subject<F>>(&mut self, d: Dims) {
         let l = D::layout(d);
-        let budget: usize = if self.mode == Mode::Quick { 3_000 } else { 60_000 };
+        let budget: usize = if self.mode == Mode::Quick { if l.nslots() > 10 { 600 } else { 3_000 } } else { 60_000 };
         let c = cfg();
         let mut list: Vec<(Op, Vec<f64>)> = Vec::new();
         for (op, pts) in jobs(F::PREC) {
@@ -220,13 +229,17 @@ fn main() {
     quiet_panics();
     let cli = cli();
     if let Some(path) = &cli.replay {
-        run_replay_tol(PROP, path, cfg(), &|f| whole_universe(Tier::Thorough, f));
+        run_replay_tol(PROP, path, cfg(), &|f| { whole_universe(Tier::Thorough, f); larger_vector_types(f) });
     }
     let start = Instant::now();
     let mut stats = Stats::default();
     let mut e = Enumerate { mode: cli.mode, stats: &mut stats, axes: vec![], reduced: 0 };
     let tier = if cli.mode == Mode::Quick { Tier::Quick } else { Tier::Thorough };
     whole_universe(tier, &mut e);
+    if tier == Tier::Quick {
+        // (the thorough universe has sizes up to 6 already)
+        larger_vector_types(&mut e);
+    }
     let axes = std::mem::take(&mut e.axes);
     let reduced = e.reduced;
     let (hist_calls, hist_pairs) = history_independence(&mut stats);
